@@ -35,3 +35,34 @@ pub fn measure<T>(f: impl FnOnce() -> T) -> (T, u64, u64) {
     let r = f();
     (r, BYTES.with(|b| b.get()).wrapping_sub(b0), CALLS.with(|b| b.get()).wrapping_sub(c0))
 }
+
+/// CPU time consumed by the calling thread while running `f` (CLOCK_THREAD_CPUTIME_ID): unaffected by
+/// what other threads and processes do, apart from cache and frequency effects.
+pub fn thread_cpu<T>(f: impl FnOnce() -> T) -> (T, f64) {
+    fn now() -> f64 {
+        let mut ts = libc::timespec { tv_sec: 0, tv_nsec: 0 };
+        unsafe { libc::clock_gettime(libc::CLOCK_THREAD_CPUTIME_ID, &mut ts) };
+        ts.tv_sec as f64 + ts.tv_nsec as f64 * 1e-9
+    }
+    let t0 = now();
+    let r = f();
+    (r, now() - t0)
+}
+/// Growth check: best-of-three CPU time of `f` on an input of size n and on one four times as
+/// large. Linear work gives a ratio near 4, quadratic work 16; more than 8 (plus 20 ms of slack) fails.
+pub fn quadruples_badly(mut f: impl FnMut(bool) -> bool) -> Result<(f64, f64), String> {
+    let mut best = [f64::MAX, f64::MAX];
+    for _ in 0..3 {
+        for (k, big) in [false, true].iter().enumerate() {
+            let (ok, t) = thread_cpu(|| f(*big));
+            if !ok {
+                return Err("scaling input rejected".into());
+            }
+            best[k] = best[k].min(t);
+        }
+    }
+    if best[1] > 8.0 * best[0] + 0.020 {
+        return Err(format!("{:.1} ms of CPU time for the input, {:.1} ms for one four times as long", best[0] * 1e3, best[1] * 1e3));
+    }
+    Ok((best[0], best[1]))
+}
